@@ -119,6 +119,10 @@ type File struct {
 	Gaps           []int // junk bytes in front of ChunkOrder[i]
 	TrailingJunk   int   // junk bytes after the last chunk
 	JunkByte       byte
+	// MoovExtras: serialized non-trak boxes placed among the children of moov (nil: moov is mvhd followed by the
+	// trak boxes). Slot 0 = in front of mvhd, slot k (1..len(Tracks)) = in front of the k-th trak, slot
+	// len(Tracks)+1 = behind the last trak; several boxes of one slot keep their order.
+	MoovExtras []MoovExtra
 
 	// set by StretchedPieces on its private copy: a hole of stretchBy bytes in front of ChunkOrder[stretchAt]
 	stretch    bool
@@ -474,11 +478,49 @@ func (f *File) moovBytes() []byte {
 	}
 	mvhd := FullBox("mvhd", f.MvhdVersion, 0, timesAndDur(f.MvhdVersion, nil, &f.MovieTimescale, f.MovieDuration),
 		u32(0x00010000), u16(0x0100), u16(0), u64(0), unityMatrix, make([]byte, 24), u32(next))
-	parts := [][]byte{mvhd}
-	for _, t := range f.Tracks {
+	var parts [][]byte
+	extras := func(slot int) {
+		for _, e := range f.MoovExtras {
+			if e.Slot == slot {
+				parts = append(parts, e.Box)
+			}
+		}
+	}
+	extras(0)
+	parts = append(parts, mvhd)
+	for ti, t := range f.Tracks {
+		extras(ti + 1)
 		parts = append(parts, t.trakBytes(f.MovieTimescale))
 	}
+	extras(len(f.Tracks) + 1)
 	return Box("moov", parts...)
+}
+
+// MoovExtra is one non-trak child of moov (see File.MoovExtras).
+type MoovExtra struct {
+	Slot int
+	Type string // four-character code (for labels)
+	Box  []byte // the serialized box
+}
+
+// MoovChildTypes lists the types of the children of moov in file order.
+func (f *File) MoovChildTypes() []string {
+	var out []string
+	extras := func(slot int) {
+		for _, e := range f.MoovExtras {
+			if e.Slot == slot {
+				out = append(out, e.Type)
+			}
+		}
+	}
+	extras(0)
+	out = append(out, "mvhd")
+	for ti := range f.Tracks {
+		extras(ti + 1)
+		out = append(out, "trak")
+	}
+	extras(len(f.Tracks) + 1)
+	return out
 }
 
 // Build derives tables and offsets from the ground truth and serializes the
